@@ -1,0 +1,21 @@
+//go:build verif
+
+// Contracts for the status parsers used by ctl:ruleEngine / ctl:auditEngine (package types), checked by /verif/govc
+// (comment-only file; no code).
+package types
+
+// ParseRuleEngineStatus accepts exactly on / detectiononly / off (case-insensitively) and maps each to its own status.
+//@ func ParseRuleEngineStatus props C02,C17,C07
+//@   modifies nothing
+//@   ensures accepts: isnil(result1) <==> (lower(re) == "on" || lower(re) == "detectiononly" || lower(re) == "off")
+//@   ensures on: lower(re) == "on" ==> result0 == RuleEngineOn
+//@   ensures detectionOnly: lower(re) == "detectiononly" ==> result0 == RuleEngineDetectionOnly
+//@   ensures off: lower(re) == "off" ==> result0 == RuleEngineOff
+
+// ParseAuditEngineStatus accepts exactly on / off / relevantonly (case-insensitively).
+//@ func ParseAuditEngineStatus props C19,C17,C07
+//@   modifies nothing
+//@   ensures accepts: isnil(result1) <==> (lower(as) == "on" || lower(as) == "off" || lower(as) == "relevantonly")
+//@   ensures on: lower(as) == "on" ==> result0 == AuditEngineOn
+//@   ensures off: lower(as) == "off" ==> result0 == AuditEngineOff
+//@   ensures relevantOnly: lower(as) == "relevantonly" ==> result0 == AuditEngineRelevantOnly
